@@ -291,7 +291,7 @@ def checksum_presence_governs_consumption(prog, res):
     finishes a frame 4 bytes early when verification is off and takes the checksum for the start of the next frame."""
     R = "T9.checksum-presence-governs-consumption"
     g = prog.fn("ZSTD_decompressContinue")
-    present = cond_edges(g, lambda c: c.get("k") == "mem" and c.get("f") == "checksumFlag", "true")
+    present = guards.truthy_edges(g, lambda c: c.get("k") == "mem" and c.get("f") == "checksumFlag", truth=True)
     to_ck = g.find_roots(lambda x: x.get("k") == "asg" and strip_casts(x["lhs"]).get("f") == "stage" and
                          strip_casts(x["rhs"]).get("n") == "ZSTDds_checkChecksum")
     res.check(len(to_ck) >= 2, R, "transitions", g.loc, "%d transitions into the checksum stage" % len(to_ck), "transitions into ZSTDds_checkChecksum: %d" % len(to_ck))
@@ -316,7 +316,7 @@ def checksum_presence_governs_consumption(prog, res):
               "stops asking for the 4 checksum bytes that the frame still contains and ends the frame early" % sorted(set(bad)))
     for name in ("ZSTD_decompressFrame", "ZSTD_findFrameSizeInfo"):
         f = prog.fn(name)
-        pres = cond_edges(f, lambda c: c.get("k") == "mem" and c.get("f") == "checksumFlag", "true")
+        pres = guards.truthy_edges(f, lambda c: c.get("k") == "mem" and c.get("f") == "checksumFlag", truth=True)
         res.check(len(pres) >= 1, R, name + ":tests-header-flag", f.loc, "consumes the checksum on fParams.checksumFlag", "%s no longer tests the header's checksumFlag" % name)
     res.need(R, 5)
 
